@@ -145,6 +145,18 @@ func fnCanon(f *ssa.Function) string {
 		f = f.Origin()
 	}
 	name := short(stripTypeArgs(f.RelString(nil)))
+	if len(renamedFunc) > 0 {
+		top := f
+		for top.Parent() != nil {
+			top = top.Parent()
+		}
+		if old, ok := renamedFunc[top]; ok {
+			cur := short(stripTypeArgs(top.RelString(nil)))
+			if strings.HasPrefix(name, cur) {
+				name = old + name[len(cur):]
+			}
+		}
+	}
 	// bound method wrappers: "(T).M$bound"
 	name = strings.TrimSuffix(name, "$bound")
 	name = strings.TrimSuffix(name, "$thunk")
